@@ -929,7 +929,8 @@ public:
         DistP d = buildFresh(c);
         Obs o = observe(*d, c);
         int cls = classifyShape(o);
-        bool bad = (avNarrow && cls == 1) || (avMedian && cls != 0) || (avEmpty && c.kind() == "cont" && hasEmptyClass(o));
+        bool bad = (avNarrow && cls == 1) || (avMedian && cls != 0) || (avEmpty && c.kind() == "cont" && c.scheme == 1 && hasEmptyClass(o));
+        // (scheme 1 only: "equal probabilities when possible" has to fall back to equal intervals instead)
         if (bad) { ++steered; return false; }
       }
     }
